@@ -28,9 +28,16 @@ ALLOWED_AXIOMS = {"propext", "Classical.choice", "Quot.sound"}
 GOENV = dict(os.environ, GOFLAGS="-mod=mod", GOPROXY="off", GOSUMDB="off", GOTOOLCHAIN="local",
              CGO_ENABLED=os.environ.get("CGO_ENABLED", "0"))
 
+# regenerated-code obligations (extract/translate.go -> lean/Crng/Gen/Code*.lean -> lean/Crng/Tie/Code*.lean): module, theorems
+CODE_TABLE = ("Crng.Tie.CodeTable", ["table_dispatch_trace", "table_dispatchAggregate_trace", "dispatch_invalid", "dispatch_out_of_order",
+                                     "dispatch_order_off", "dispatch_blacklisted", "dispatch_accepted", "rewriteFields_eq", "join3"])
+CODE_ROUTE = ("Crng.Tie.CodeRoute", ["sendAll_trace", "sendFirst_trace", "metricName_eq"])
+CODE_MATCHER = ("Crng.Tie.CodeMatcher", ["matcher_match_eq", "matcher_match_spec", "matcher_prematch_eq", "matcher_regexStage_eq"])
+CODE_AGG = ("Crng.Tie.CodeAgg", ["addMaybe_eq", "withheld_consumed", "no_dropraw_never_withholds"])
+
 TRUSTED_BASE = [
     "Lean 4.33.0 kernel (type-checks every theorem; no sorry/admit/own axioms; axioms used: subset of propext, Classical.choice, Quot.sound, audited with #print axioms on every run)",
-    "fact extractor /verif/extract (go/ast over /repo's working tree -> lean/Crng/Gen/*.lean)",
+    "fact extractor /verif/extract (go/ast over /repo's working tree -> lean/Crng/Gen/*.lean) and its Go->Lean translator for the decision-logic functions (extract/translate.go -> Crng/Gen/Code*.lean; what it drops or identifies is listed at the top of that file) with the hand-written value domain / interfaces of lean/Crng/CodePrelude.lean",
     "correspondence harness /verif/harness (drives the real code built with -tags verif) and the Lean driver (runs the model's executable definitions); python orchestrator compares the two output streams",
     "externals modelled, not verified: Go regexp/strconv/bufio/sort/crypto-md5/fnv, og-rek, toml decoding, kernel TCP and filesystem, Go scheduler and memory model",
 ]
@@ -326,11 +333,24 @@ class Ctx:
                 self.oblige("lake build " + " ".join(modules), "theorem-module", False,
                             "\n".join("%s:%d: %s" % f for f in failing[:8]) or text[-1500:])
             for t in ties:
+                tths = []
+                if isinstance(t, tuple):
+                    t, tths = t[0], [t[0] + "." + x for x in t[1]]
                 okt, failing, text = lake_build([t])
                 if not okt:
                     self.lean_ok = False
                 self.oblige("regenerated obligation " + t, "tie-A", okt,
                             "\n".join("%s:%d: %s" % f for f in failing[:8]) or text[-1500:])
+                if okt and tths:
+                    # theorems about the code regenerated from /repo on this run: audited like the property theorems
+                    ax, atext = print_axioms([t], tths)
+                    for th in tths:
+                        a = ax.get(th)
+                        good = a is not None and a <= ALLOWED_AXIOMS
+                        if not good:
+                            self.lean_ok = False
+                        self.oblige("theorem (regenerated code) %s  [axioms: %s]" % (th, "missing" if a is None else ", ".join(sorted(a)) or "none"),
+                                    "tie-A", good, "" if good else atext[-800:])
             hits = grep_forbidden()
             self.oblige("no sorry/admit/axiom/native_decide/bv_decide/implemented_by/unsafe/maxHeartbeats 0", "audit", not hits, "\n".join(hits[:10]))
             if ok and theorems:
